@@ -86,9 +86,23 @@ func main() {
 		fatal("-out required")
 	}
 	const mod = "github.com/tailscale/setec/"
+	// every library package of the module as it is now (a refactoring may add or move packages);
+	// commands (package main) and the test scaffolding are built as they are
 	var paths []string
+	for _, p := range goList(*repo, "./...") {
+		if p.Name == "main" || !strings.HasPrefix(p.ImportPath, mod) || strings.HasSuffix(p.ImportPath, "/setectest") {
+			continue
+		}
+		paths = append(paths, p.ImportPath)
+	}
 	for _, p := range pkgs {
-		paths = append(paths, mod+p)
+		found := false
+		for _, q := range paths {
+			found = found || q == mod+p
+		}
+		if !found {
+			fatal("package %s%s not found in the module", mod, p)
+		}
 	}
 	// export data of all dependencies, for type checking
 	exports := map[string]string{}
